@@ -5,7 +5,8 @@ CONSTANTS
   MaxExtra = 0
   SkipSet = {"sync", "jump", "unknown", "unknown0", "unknownL", "byte"}
   HdrSet = {"bbox", "filets"}
-  RefPolicy = "any"
+  RefPolicy = "first"
+  FillOnly = TRUE
   BulkN = 15010
   RoleLimit = 250
   ExportHist = TRUE
